@@ -247,3 +247,68 @@ func CondWaitWith(wait func(), l sync.Locker) {
 // RealBlock is what the default clause added to a blocking select does when
 // it is not executed by a simulated task: let others run and try again.
 func RealBlock() { runtime.Gosched() }
+
+// WaitGroups. There is no way to ask a sync.WaitGroup whether Wait would
+// block, so Add and Done are re-pointed too and keep a shadow counter; Wait
+// yields cooperatively until the shadow counter is zero and then calls the
+// real Wait (which returns at once and provides the synchronisation).
+
+type wgShadow struct {
+	wg *sync.WaitGroup
+	n  int
+}
+
+//go:norace
+func (s *Sim) shadowOf(wg *sync.WaitGroup) *wgShadow {
+	for i := 0; i < len(s.wgs); i++ {
+		if s.wgs[i].wg == wg {
+			return s.wgs[i]
+		}
+	}
+	sh := &wgShadow{wg: wg}
+	n := len(s.wgs)
+	bigger := make([]*wgShadow, n+1)
+	for i := 0; i < n; i++ {
+		bigger[i] = s.wgs[i]
+	}
+	bigger[n] = sh
+	s.wgs = bigger
+	return sh
+}
+
+// WGAdd replaces wg.Add(n).
+//
+//go:norace
+func WGAdd(wg *sync.WaitGroup, n int) {
+	if s := cur; s != nil {
+		s.shadowOf(wg).n += n
+	}
+	wg.Add(n)
+}
+
+// WGDone replaces wg.Done().
+//
+//go:norace
+func WGDone(wg *sync.WaitGroup) {
+	if s := cur; s != nil {
+		s.shadowOf(wg).n--
+		progress()
+	}
+	wg.Done()
+}
+
+// WGWait replaces wg.Wait().
+//
+//go:norace
+func WGWait(wg *sync.WaitGroup) {
+	s := cur
+	if s.inTask() {
+		sh := s.shadowOf(wg)
+		for sh.n > 0 {
+			if !Blocked() {
+				break
+			}
+		}
+	}
+	wg.Wait()
+}
